@@ -4,11 +4,25 @@ A trace-validation property: the adapter runs the real bisc / auto_bisc / helper
 universe (every subset of S0..S3 with all 1 <= m <= n <= 3 in the thorough tier, a seeded sample in the quick tier,
 plus random subsets of S<=4, S<=5 of several densities, with and without whole lengths, as list in several orders,
 dict and predicate) and records what they returned; Trace_C17 (lib BiscSpec) judges every recorded run.
+
+Lenses added by the hardening round (all judged by Trace_C17 / lib BiscSpec):
+  argument forms   bisc by keyword and with report=True, n=None, defaultdict with missing keys, dictionary with extra
+                   longer keys, a `def` predicate that is only defined up to n, lists with repeated members;
+                   run_clean_up with default / positional / keyword bm, M, limit_monitors; sanity checks with
+                   stop_on_failure both ways and the permutations they hand back; occurrences as tuple / range /
+                   unsorted list; auto_bisc on a (good, bad) tuple of dictionaries and on a list
+  history          the same list / dictionary object asked twice, asked again after it was extended, a predicate whose
+                   answer changed; the same output object handed to every helper in a row (snapshot taken first:
+                   later results are judged against the snapshot, and the object must still hold the same patterns)
+  larger inputs    named classes and avoiders of random mesh patterns up to length 7 (8 thorough) with m = 3 or 4, occurrences in permutations of length 8-10,
+                   first / last positions, empty and full occurrences
 """
+import collections
 import contextlib
 import io
 import itertools
 import json
+import time
 
 from permuta import Perm
 from permuta.bisc import bisc as bisc_mod
@@ -35,31 +49,127 @@ def sg_json(SG):
     return out
 
 
-def run_bisc_all_forms(ctx, rnd, A, m, n, events):
-    """A: list of tuples.  Runs list (two orders), dict and predicate forms."""
+DUP_SITE = "bisc(A, m, n) with A a list in which a permutation is repeated"
+DUP_DEV = "RepeatedMembersCountedTwice"
+
+
+def content(D):
+    """What a dictionary / list input holds, as a comparable value (empty levels do not count: a defaultdict
+    grows empty levels when it is looked at)."""
+    if isinstance(D, dict):
+        return {k: sorted(v) for k, v in D.items() if v}
+    return sorted(D)
+
+
+def extra_forms(rnd, perms, m, n):
+    """Further presentations of the same finite set (name, thunk).  Every thunk must return the same patterns
+    as bisc(list, m, n)."""
+    by_len = sorted(perms, key=lambda p: (len(p), p))
+    top = max([len(p) for p in perms] + [n]) + 1
+    Aset = set(perms)
+    dd = collections.defaultdict(list)                    # only the non-empty levels are present
+    for p in by_len:
+        dd[len(p)].append(p)
+    wide = {k: [p for p in perms if len(p) == k] for k in range(top + 1)}     # levels beyond n, some of them populated
+
+    def only_up_to_n(p):                                  # a property that is simply not defined on longer permutations
+        if len(p) > n:
+            raise ArithmeticError("the property is only defined up to length %d" % n)
+        return p in Aset
+
+    out = [("list, keywords, report=True", lambda: bisc(A=list(by_len), m=m, n=n, report=True)),
+           ("defaultdict without the empty levels", lambda: bisc(dd, m, n)),
+           ("dict with levels beyond n", lambda: bisc(wide, m, n=n)),
+           ("def predicate undefined beyond n", lambda: bisc(only_up_to_n, m, n)),
+           ("list reversed", lambda: bisc(list(reversed(by_len)), m, n))]
+    longest = max([len(p) for p in perms], default=-1)
+    if longest == n:
+        out.append(("list, n=None", lambda: bisc(list(by_len), m)))
+        out.append(("dict, n=None", lambda: bisc({k: [p for p in perms if len(p) == k] for k in range(n + 1)}, m, None)))
+    elif perms and longest < n:
+        out.append(("dict with empty top levels, n=None", lambda: bisc({k: [p for p in perms if len(p) == k] for k in range(n + 1)}, m)))
+    return out
+
+
+def run_bisc_all_forms(ctx, rnd, A, m, n, events, nextra=99):
+    """A: list of tuples.  Runs list (two orders), dict and predicate forms, then further presentations, the same
+    objects a second time, and a list with repeated members."""
     perms = [Perm(a) for a in A]
     by_len = sorted(perms, key=lambda p: (len(p), p))
     shuffled = list(perms)
     rnd.shuffle(shuffled)
     D = {k: [p for p in perms if len(p) == k] for k in range(n + 1)}
     Aset = set(perms)
+    the_list, the_dict = list(shuffled), dict(D)
+    before = (content(the_list), content(the_dict))
+    forms = [("list", lambda: bisc(list(by_len), m, n)), ("list-shuffled", lambda: bisc(the_list, m, n)),
+             ("dict", lambda: bisc(the_dict, m, n)), ("predicate", lambda: bisc(lambda p: p in Aset, m, n))]
+    more = extra_forms(rnd, perms, m, n)
+    if len(more) > nextra:
+        more = rnd.sample(more, nextra)
+    # history: the very same list and dictionary objects once more, after everything else
+    more += [("the same list object again", lambda: bisc(the_list, m, n)), ("the same dict object again", lambda: bisc(the_dict, m, n))]
     outs = []
-    for form, mk in (("list", lambda: bisc(list(by_len), m, n)), ("list-shuffled", lambda: bisc(list(shuffled), m, n)),
-                     ("dict", lambda: bisc(dict(D), m, n)), ("predicate", lambda: bisc(lambda p: p in Aset, m, n))):
+    for form, mk in forms + more:
         st, SG = util.call(quiet, mk)
         case = {"kind": "bisc", "A": [list(a) for a in A], "m": m, "n": n, "form": form}
         if st == "raise":
             ctx.violation(case, "NoException", "a dictionary of patterns", SG)
             continue
         outs.append((form, SG))
+    if (content(the_list), content(the_dict)) != before:
+        ctx.drift("bisc changed the members of the caller's list / dictionary (A=%s, m=%d, n=%d)" % ([list(a) for a in A], m, n))
     if not outs:
         return
     form0, SG0 = outs[0]
     Ain = [list(a) for a in A if len(a) <= n]
-    events.append({"op": "Bisc", "A": Ain, "m": m, "n": n, "SG": sg_json(SG0), "form": form0})
+    j0 = sg_json(SG0)
+    events.append({"op": "Bisc", "A": Ain, "m": m, "n": n, "SG": j0, "meta": {"form": form0}})
     for form, SG in outs[1:]:
-        events.append({"op": "SameOutput", "SG1": sg_json(SG0), "SG2": sg_json(SG), "A": Ain, "m": m, "n": n, "form": form})
+        events.append({"op": "SameOutput", "SG1": j0, "SG2": sg_json(SG), "meta": {"A": Ain, "m": m, "n": n, "form": form}})
+    # repeated members: the same finite set, so the same guarantees (judged as its own Bisc event)
+    if perms and rnd.random() < 0.5:
+        dup = list(by_len) + [rnd.choice(by_len) for _ in range(rnd.randint(1, 3))]
+        if rnd.random() < 0.5:
+            k = rnd.choice(sorted({len(p) for p in perms}))
+            dup += [p for p in by_len if len(p) == k]       # a whole level twice
+        rnd.shuffle(dup)
+        st, SG = util.call(quiet, bisc, dup, m, n)
+        if st == "ok":
+            events.append({"op": "Bisc", "A": Ain, "m": m, "n": n, "SG": sg_json(SG),
+                           "meta": {"form": "list with repeated members", "dup": [list(p) for p in dup]}})
     return SG0
+
+
+def history_probes(ctx, rnd, events, count):
+    """The same object asked again after it was changed by the caller: the answer must describe what it holds now."""
+    pool = [p for k in range(5) for p in util.perms_of(k)]
+    for _ in range(count):
+        n = rnd.randint(2, 4)
+        m = rnd.randint(1, min(3, n))
+        dens = rnd.choice([0.4, 0.7])
+        A1 = [Perm(p) for p in pool if len(p) <= n and rnd.random() < dens]
+        add = [Perm(p) for p in pool if len(p) <= n and Perm(p) not in A1 and rnd.random() < 0.3]
+        L = list(A1)
+        rnd.shuffle(L)
+        Dd = {k: [p for p in A1 if len(p) == k] for k in range(n + 1)}
+        cur = set(A1)
+
+        def pred(p):
+            return p in cur
+        for stage, members in (("first", A1), ("after the caller added members", A1 + add)):
+            if stage != "first":
+                L.extend(add)
+                for p in add:
+                    Dd[len(p)].append(p)
+                cur.update(add)
+            Ain = [list(p) for p in members]
+            for form, arg in (("list", L), ("dict", Dd), ("predicate", pred)):
+                st, SG = util.call(quiet, bisc, arg, m, n)
+                if st == "raise":
+                    ctx.violation({"kind": "bisc-history", "A": Ain, "m": m, "n": n, "form": form, "stage": stage}, "NoException", "patterns", SG)
+                    continue
+                events.append({"op": "Bisc", "A": Ain, "m": m, "n": n, "SG": sg_json(SG), "meta": {"form": form + ", same object, " + stage}})
 
 
 def subsets_small(rnd, quick):
@@ -78,11 +188,188 @@ def subsets_small(rnd, quick):
     return [list(c) for r in range(len(s) + 1) for c in itertools.combinations(s, r)]
 
 
+def helper_probes(ctx, rnd, events, SG, A, top):
+    """The output object SG of one bisc run handed to every helper in a row.  A snapshot is taken first; every
+    result is judged against the snapshot, and at the end the object must still hold the same patterns."""
+    snap = sg_json(SG)
+    Aset = set(A)
+    for _ in range(3):
+        q = util.rand_perm(rnd, rnd.randint(0, 5))
+        events.append({"op": "Contains", "q": list(q), "SG": snap, "res": bool(perm_contains_cl_patts_many_shadings(Perm(q), SG))})
+    L = rnd.randint(1, top)
+    Ad = {k: [Perm(p) for p in A if len(p) == k] for k in range(L + 1)}
+    Bd = {k: [Perm(p) for p in util.perms_of(k) if p not in Aset] for k in range(L + 1)}
+    sides = {"good": (patterns_suffice_for_good, Ad), "bad": (patterns_suffice_for_bad, Bd)}
+    for kind in ("good", "bad"):
+        f, dct = sides[kind]
+        S = [list(p) for k in dct for p in dct[k]]
+        val, _ = quiet(f, SG, L, dct)
+        events.append({"op": "Suffice", "kind": kind, "SG": snap, "L": L, "S": S, "res": bool(val)})
+        # both stopping modes, positional and by keyword, with what is handed back next to the verdict
+        for stop, call in ((True, lambda: f(SG, L, dct, True)), (False, lambda: f(SG, L, dct, stop_on_failure=False)),
+                           (True, lambda: f(SG=SG, L=L, **{"A" if kind == "good" else "B": dct}, stop_on_failure=True))):
+            st, res = util.call(quiet, call)
+            if st == "raise":
+                ctx.violation({"kind": "suffice", "side": kind, "SG": snap, "L": L, "S": S}, "NoException", "(verdict, permutations)", res)
+                continue
+            val, wit = res
+            events.append({"op": "SufficeW", "kind": kind, "SG": snap, "L": L, "S": S, "res": bool(val), "wit": [list(p) for p in wit],
+                           "meta": {"stop_on_failure": stop}})
+    # a sanity check over fewer lengths than the dictionary holds
+    if L > 1:
+        L2 = rnd.randint(0, L - 1)
+        val, wit = quiet(patterns_suffice_for_bad, SG, L2, Bd)
+        events.append({"op": "SufficeW", "kind": "bad", "SG": snap, "L": L2, "S": [list(p) for k in Bd for p in Bd[k]], "res": bool(val),
+                       "wit": [list(p) for p in wit], "meta": {"stop_on_failure": False}})
+    return snap
+
+
+def cleanup_variants(ctx, rnd, events, SG, Bd, ncase, A):
+    """run_clean_up with its arguments given in different ways; every returned basis must occur in every bad
+    permutation it was tested on (lengths from the shortest learned length up to bm); to_sg_format of all
+    numbered patterns gives back the patterns that went in."""
+    snap = sg_json(SG)
+    low = min(SG.keys())
+    tops = [k for k in SG if SG[k]]
+    npatt = sum(len(R) for k in SG for R in SG[k].values())
+    lim = rnd.choice([1, 2, 3, 4, 5, 6])
+    variants = [("positional", ncase, lambda: run_clean_up(SG, Bd, ncase, None, lim)),
+                ("bm=None", ncase, lambda: run_clean_up(SG, Bd, limit_monitors=lim)),
+                ("M given", ncase, lambda: run_clean_up(SG, Bd, bm=ncase, M=max(tops), limit_monitors=lim, report=True))]
+    if ncase > low + 1:
+        bm = rnd.randint(low + 1, ncase - 1)
+        variants.append(("smaller bm", bm, lambda: run_clean_up(SG, Bd, bm, limit_monitors=lim)))
+    if npatt <= 5:
+        variants.append(("defaults", ncase, lambda: run_clean_up(SG, Bd)))
+    name, bm, call = rnd.choice(variants)
+    st, res = util.call(quiet, call)
+    if st == "raise":
+        ctx.violation({"kind": "cleanup", "A": [list(a) for a in A], "variant": name}, "NoException", "bases", res)
+        return 0
+    bases, d = res
+    for b in bases[:6]:
+        events.append({"op": "CleanUp", "SG": sg_json(to_sg_format(b, d)), "Bad": [list(p) for k in Bd if low <= k <= bm for p in Bd[k]],
+                       "meta": {"A": [list(a) for a in A], "variant": name}})
+    if d:
+        events.append({"op": "SameAs", "SG1": snap, "SG2": sg_json(to_sg_format(sorted(d), d)), "clause": "ToSgFormatRoundTrip", "meta": {"variant": name}})
+    events.append({"op": "SameAs", "SG1": snap, "SG2": sg_json(SG), "clause": "HelpersLeaveOutputUnchanged", "meta": {"after": "run_clean_up " + name}})
+    return len(bases[:6])
+
+
+NAMED = [("Av(231)", [(1, 2, 0)]), ("Av(132,321)", [(0, 2, 1), (2, 1, 0)]), ("Av(2413,3142)", [(1, 3, 0, 2), (2, 0, 3, 1)]),
+         ("Av(123)", [(0, 1, 2)]), ("Av(312,231)", [(2, 0, 1), (1, 2, 0)]), ("Av(1342)", [(0, 2, 3, 1)])]
+
+
+def larger_inputs(ctx, rnd, events, quick):
+    """Beyond the exhaustive bound: whole classes up to length 7 (8), patterns up to length 3 or 4, and the same
+    class with some long members left out (so it is no longer a class)."""
+    top = 7 if quick else 8
+    for name, basis in (rnd.sample(NAMED, 3) if quick else NAMED):
+        Bp = [Perm(b) for b in basis]
+        cls = [p for k in range(top + 1) for p in Perm.of_length(k) if p.avoids(*Bp)]
+        m = max(3, max(map(len, basis)))
+        for label, A in (("whole class", cls), ("class with holes", [p for p in cls if len(p) < 4 or rnd.random() < 0.9])):
+            A = list(A)
+            rnd.shuffle(A)
+            n = top if label == "whole class" else rnd.randint(4, top - 1)
+            st, SG = util.call(quiet, bisc, A, m, n)
+            if st == "raise":
+                ctx.violation({"kind": "bisc-large", "class": name, "input": label, "m": m, "n": n}, "NoException", "patterns", SG)
+                continue
+            events.append({"op": "Bisc", "A": [list(p) for p in A if len(p) <= n], "m": m, "n": n, "SG": sg_json(SG),
+                           "meta": {"form": "list-shuffled", "class": name, "input": label}})
+
+
+def mesh_defined_inputs(ctx, rnd, events, quick):
+    """Sets that need shadings to be described: the avoiders of one or two random mesh patterns of length 2-3 up to
+    length 6-7 (8).  The set is just an input; what bisc returns for it is judged like any other run."""
+    from permuta import MeshPatt
+    for _ in range(8 if quick else 60):
+        top = rnd.choice([6, 7] if quick else [6, 7, 7, 8])
+        patts = []
+        for _ in range(rnd.choice([1, 1, 2])):
+            k = rnd.choice([2, 3, 3])
+            dens = rnd.choice([0.15, 0.35, 0.6])
+            patts.append(MeshPatt(Perm(util.rand_perm(rnd, k)), [(i, j) for i in range(k + 1) for j in range(k + 1) if rnd.random() < dens]))
+        A = [p for k in range(top + 1) for p in Perm.of_length(k) if all(p.avoids(M) for M in patts)]
+        m = max(len(M) for M in patts)
+        n = rnd.choice([top, top, top - 1])
+        rnd.shuffle(A)
+        st, SG = util.call(quiet, bisc, A, m, n)
+        desc = [[list(M.pattern), sorted(map(list, M.shading))] for M in patts]
+        if st == "raise":
+            ctx.violation({"kind": "bisc-large", "avoiders of": desc, "m": m, "n": n}, "NoException", "patterns", SG)
+            continue
+        events.append({"op": "Bisc", "A": [list(p) for p in A if len(p) <= n], "m": m, "n": n, "SG": sg_json(SG),
+                       "meta": {"form": "list-shuffled", "input": "avoiders of mesh patterns", "patterns": desc}})
+
+
+def occurrence_probes(rnd, events, quick):
+    for i in range(150 if quick else 800):
+        q = util.rand_perm(rnd, rnd.randint(1, 7) if i % 3 else rnd.randint(8, 10))
+        k = rnd.randint(0, min(4, len(q)))
+        occ = sorted(rnd.sample(range(len(q)), k))
+        r = rnd.random()
+        if r < 0.15 and k:                   # boundary positions
+            occ = sorted(set(occ[1:-1]) | {0, len(q) - 1})
+        elif r < 0.2:
+            occ = list(range(len(q))) if len(q) <= 5 else []
+        given, form = list(occ), "sorted list"
+        r = rnd.random()
+        if r < 0.25:
+            given, form = tuple(occ), "tuple"
+        elif r < 0.5:
+            given = list(occ)
+            rnd.shuffle(given)
+            form = "unsorted list"
+        elif r < 0.6 and occ and occ == list(range(occ[0], occ[0] + len(occ))):
+            given, form = range(occ[0], occ[0] + len(occ)), "range"
+        res = maximal_mesh_pattern_of_occurrence(Perm(q), given)
+        events.append({"op": "MaxMesh", "q": list(q), "occ": occ, "res": sorted(list(c) for c in res), "meta": {"form": form, "given": list(given)}})
+    events.append({"op": "MaxMesh", "q": [], "occ": [], "res": sorted(list(c) for c in maximal_mesh_pattern_of_occurrence(Perm(()), [])), "meta": {"form": "empty"}})
+
+
+def auto_probes(ctx, rnd, events, quick):
+    from permuta.bisc.bisc import create_bisc_input
+    props = [("avoids 231", lambda p: p.avoids(Perm((1, 2, 0)))), ("avoids 132 and 321", lambda p: p.avoids(Perm((0, 2, 1)), Perm((2, 1, 0))))]
+    if not quick:
+        from permuta.bisc import perm_properties as pp
+        props += [("smooth", pp.smooth), ("simsun", pp.simsun), ("West-2", lambda p: p.west_2_stack_sortable())]
+    small = [p for k in range(7) for p in util.perms_of(k)]
+    done = 0
+    for pi, (name, prop) in enumerate(props):
+        forms = [("property", lambda: auto_bisc(prop)), ("(good, bad) dictionaries", lambda: auto_bisc(create_bisc_input(8, prop)))]
+        if not quick and pi < 2:
+            forms.append(("list", lambda: auto_bisc([p for k in range(9) for p in Perm.of_length(k) if prop(p)])))
+        for fi, (form, call) in enumerate(forms):
+            st, sg = util.call(quiet, call)
+            if st == "raise" or not sg:
+                ctx.note("auto_bisc %s (%s)" % (name, form), "no description returned (%s)" % (sg if st == "raise" else "None"))
+                continue
+            snap = sg_json(sg)
+            for q in small[fi:: (7 if quick else 1)]:
+                events.append({"op": "Describes", "SG": snap, "q": list(q), "prop": bool(prop(Perm(q))), "meta": {"name": name, "form": form}})
+            for k in (7, 8):              # beyond TLC's reach: the verified real containment (C03) as evaluator
+                for q in itertools.islice(Perm.of_length(k), fi, None, 97 if quick else 11):
+                    got = not any(q.contains(__import__("permuta").MeshPatt(Perm(e["p"]), [tuple(c) for c in e["R"]])) for e in snap)
+                    if got != bool(prop(q)):
+                        ctx.violation({"kind": "auto_bisc", "property": name, "form": form, "q": list(q)}, "AutoBiscDescribesProperty", bool(prop(q)), got)
+            done += 1
+    return done
+
+
 def run(ctx):
     quick = ctx.tier == "quick"
     rnd = util.rng(ctx, 17)
     events = []
     nruns = 0
+    phases, t0 = {}, [time.time()]
+
+    def lap(what):
+        phases[what] = round(time.time() - t0[0], 1)
+        t0[0] = time.time()
+        ctx.note("phase_seconds", phases)
+
     for A in subsets_small(rnd, quick):
         for m in (1, 2, 3):
             for n in range(m, 4):
@@ -90,8 +377,9 @@ def run(ctx):
                     continue
                 run_bisc_all_forms(ctx, rnd, A, m, n, events)
                 nruns += 1
+    lap("subsets of S<=3, all presentations")
     big = [p for k in range(6) for p in util.perms_of(k)]
-    for _ in range(40 if quick else 600):
+    for _ in range(60 if quick else 600):
         top = rnd.choice([4, 4, 5])
         dens = rnd.choice([0.3, 0.6, 0.9])
         A = [p for p in big if len(p) <= top and rnd.random() < dens]
@@ -102,20 +390,17 @@ def run(ctx):
             A = [p for p in A if len(p) > 0] if rnd.random() < 0.5 else A
         m = rnd.randint(1, 3)
         n = rnd.randint(m, top)
-        SG = run_bisc_all_forms(ctx, rnd, A, m, n, events)
+        SG = run_bisc_all_forms(ctx, rnd, A, m, n, events, nextra=3)
         nruns += 1
         if SG:
-            # the algorithm's own containment test and the two sufficiency checks
-            for _ in range(3):
-                q = util.rand_perm(rnd, rnd.randint(0, 5))
-                events.append({"op": "Contains", "q": list(q), "SG": sg_json(SG), "res": bool(perm_contains_cl_patts_many_shadings(Perm(q), SG))})
-            L = rnd.randint(1, top)
-            Ad = {k: [Perm(p) for p in A if len(p) == k] for k in range(L + 1)}
-            Bd = {k: [Perm(p) for p in util.perms_of(k) if p not in set(A)] for k in range(L + 1)}
-            val, _ = quiet(patterns_suffice_for_good, SG, L, Ad)
-            events.append({"op": "Suffice", "kind": "good", "SG": sg_json(SG), "L": L, "S": [list(p) for p in A if len(p) <= L], "res": bool(val)})
-            val, _ = quiet(patterns_suffice_for_bad, SG, L, Bd)
-            events.append({"op": "Suffice", "kind": "bad", "SG": sg_json(SG), "L": L, "S": [list(p) for k in Bd for p in Bd[k]], "res": bool(val)})
+            # the algorithm's own containment test and the two sufficiency checks, all on the same object
+            snap = helper_probes(ctx, rnd, events, SG, A, top)
+            events.append({"op": "SameAs", "SG1": snap, "SG2": sg_json(SG), "clause": "HelpersLeaveOutputUnchanged", "meta": {"after": "containment and sanity checks"}})
+    lap("random subsets of S<=4/5, helpers")
+    history_probes(ctx, rnd, events, 12 if quick else 120)
+    larger_inputs(ctx, rnd, events, quick)
+    mesh_defined_inputs(ctx, rnd, events, quick)
+    lap("history and larger inputs")
     # clean-up phase on pattern classes (where it finds small bases)
     classes = [[(0, 2, 1), (2, 1, 0)], [(1, 2, 0)], [(0, 1, 2), (1, 0)], [(1, 3, 0, 2), (2, 0, 3, 1)], [(0, 2, 1)]]
     for basis in classes[: (3 if quick else 5)]:
@@ -132,13 +417,13 @@ def run(ctx):
         bases, d = res
         for b in bases[:4]:
             sg = to_sg_format(b, d)
-            events.append({"op": "CleanUp", "SG": sg_json(sg), "Bad": [list(p) for k in Bd for p in Bd[k]], "basis": basis})
+            events.append({"op": "CleanUp", "SG": sg_json(sg), "Bad": [list(p) for k in Bd for p in Bd[k]], "meta": {"basis": basis}})
         nruns += 1
     # clean-up phase on arbitrary finite sets (not only pattern classes): every returned basis must occur in every
     # bad permutation it was tested on (all bad permutations up to bm)
     small4 = [p for k in range(5) for p in util.perms_of(k)]
-    ncu = 0
-    for _ in range(20000 if quick else 100000):
+    ncu = nvar = 0
+    for it in range(20000 if quick else 100000):
         dens = rnd.choice([0.25, 0.4, 0.55, 0.7])
         A = [p for p in small4 if rnd.random() < dens]
         if rnd.random() < 0.4:
@@ -163,62 +448,73 @@ def run(ctx):
             ncu += 1
             low = min(SG.keys())        # the clean-up tests bad permutations from the shortest learned length on
             events.append({"op": "CleanUp", "SG": sg_json(to_sg_format(b, d)), "Bad": [list(p) for k in Bd if k >= low for p in Bd[k]],
-                           "A": [list(a) for a in A]})
+                           "meta": {"A": [list(a) for a in A]}})
+        if it % (40 if quick else 20) == 0:      # the same output object once more, with the arguments given differently
+            nvar += cleanup_variants(ctx, rnd, events, SG, Bd, ncase, A)
     ctx.note("cleanup_bases_on_random_sets", ncu)
-    for _ in range(40 if quick else 400):
-        q = util.rand_perm(rnd, rnd.randint(1, 7))
-        k = rnd.randint(0, min(4, len(q)))
-        occ = sorted(rnd.sample(range(len(q)), k))
-        res = maximal_mesh_pattern_of_occurrence(Perm(q), occ)
-        events.append({"op": "MaxMesh", "q": list(q), "occ": occ, "res": sorted(list(c) for c in res)})
+    ctx.note("cleanup_bases_from_argument_variants", nvar)
+    lap("clean-up phase")
+    occurrence_probes(rnd, events, quick)
     # the automatic driver on named properties (those whose learning finishes quickly)
-    props = [("avoids 231", lambda p: p.avoids(Perm((1, 2, 0)))), ("avoids 132 and 321", lambda p: p.avoids(Perm((0, 2, 1)), Perm((2, 1, 0))))]
-    if not quick:
-        from permuta.bisc import perm_properties as pp
-        props += [("smooth", pp.smooth), ("simsun", pp.simsun), ("West-2", lambda p: p.west_2_stack_sortable())]
-    for name, prop in props:
-        st, sg = util.call(quiet, auto_bisc, prop)
-        if st == "raise" or not sg:
-            ctx.note("auto_bisc " + name, "no description returned (%s)" % (sg if st == "raise" else "None"))
-            continue
-        for q in [p for k in range(7) for p in util.perms_of(k)][:: (7 if quick else 1)]:
-            events.append({"op": "Describes", "SG": sg_json(sg), "q": list(q), "prop": bool(prop(Perm(q))), "name": name})
-        for k in (7, 8):              # beyond TLC's reach: the verified real containment (C03) as evaluator
-            for q in itertools.islice(Perm.of_length(k), 0, None, 97 if quick else 11):
-                got = not any(q.contains(__import__("permuta").MeshPatt(Perm(e["p"]), [tuple(c) for c in e["R"]])) for e in sg_json(sg))
-                if got != bool(prop(q)):
-                    ctx.violation({"kind": "auto_bisc", "property": name, "q": list(q)}, "AutoBiscDescribesProperty", bool(prop(q)), got)
-        nruns += 1
+    nruns += auto_probes(ctx, rnd, events, quick)
+    lap("occurrences and auto_bisc")
     if len(events) < 300:
         raise tlc.MachineryFailure("C17: only %d events recorded" % len(events))
-    # validate in parallel chunks
-    nch = 12
-    chunks = [events[i::nch] for i in range(nch)]
+    # validate in parallel chunks (the large inputs spread over the chunks)
+    nch = 14
+    order = sorted(range(len(events)), key=lambda i: -len(events[i].get("A", ())) if events[i]["op"] == "Bisc" else 0)
+    chunks = [[events[i] for i in order[c::nch]] for c in range(nch)]
     import concurrent.futures
     with concurrent.futures.ThreadPoolExecutor(max_workers=nch) as ex:
-        vs = list(ex.map(lambda ch: util.validate_trace(ctx, "Trace_C17", [{k: v for k, v in e.items() if k not in ("form", "basis", "name") and not (k == "A" and e["op"] == "CleanUp")} for e in ch],
+        vs = list(ex.map(lambda ch: util.validate_trace(ctx, "Trace_C17", [{k: v for k, v in e.items() if k != "meta"} for e in ch],
                                                         ntraces=len(ch), timeout=3000), chunks))
+    lap("trace validation")
     ops = {}
+    known = ctx.known_entry(DUP_SITE, DUP_DEV)
+    ndup = 0
     for ch, v in zip(chunks, vs):
         for e in ch:
             ops[e["op"]] = ops.get(e["op"], 0) + 1
         for b in v["verdict"]:
             ev = ch[b["i"] - 1]
+            if ev.get("meta", {}).get("form") == "list with repeated members":
+                # the same set without the repetitions was judged by its own Bisc event: this is the repetition alone
+                ndup += 1
+                if known is not None:
+                    ctx.known_finding(known, {"A": ev["meta"]["dup"], "m": ev["m"], "n": ev["n"], "clause": b["clause"], "SG": ev["SG"]})
+                elif ndup <= 2:
+                    ctx.violation({"kind": "trace-event", "event": ev}, b["clause"], "guarantee named by the clause (lib BiscSpec), for the set of "
+                                  "permutations in the list", ev.get("SG"))
+                continue
             ctx.violation({"kind": "trace-event", "event": ev}, b["clause"], "guarantee named by the clause (lib BiscSpec)", ev.get("SG", ev.get("res")))
+    if ndup:
+        ctx.note("runs_on_lists_with_repeated_members_flagged", ndup)
+    forms = collections.Counter()
     for e in events:
         if e["op"] == "Bisc":
             ctx.case((tuple(map(tuple, e["A"])), e["m"], e["n"]), nontrivial=len(e["SG"]) > 0)
         else:
             ctx.case(n=1)
+        f = e.get("meta", {}).get("form")
+        if f:
+            forms[e["op"] + ": " + f] += 1
     ctx.note("events_by_kind", ops)
+    ctx.note("events_by_presentation", dict(forms))
     ctx.note("bisc_runs", nruns)
+    for need in ("SameAs", "SufficeW", "CleanUp", "MaxMesh", "Describes", "SameOutput"):
+        if not ops.get(need):
+            raise tlc.MachineryFailure("C17: no %s event recorded" % need)
     ctx.sample({"machine": "Trace_C17", "event": [e for e in events if e["op"] == "Bisc" and e["SG"]][:1]})
     ctx.sample({"machine": "Trace_C17", "event": [e for e in events if e["op"] == "CleanUp"][:1]})
+    ctx.sample({"machine": "Trace_C17", "event": [e for e in events if e["op"] == "SufficeW" and not e["res"]][:1]})
     ctx.exhaustive = not quick
     ctx.rule = ("recorded runs of bisc on subsets of S<=3 (all of them in the thorough tier) and random subsets of S<=4/5 through list "
-                "(two orders), dict and predicate inputs, judged by Trace_C17: sound up to n, complete up to m, irredundant, same "
+                "(several orders, keywords, report, n=None, repeated members), dict (plain, defaultdict, extra levels) and predicate "
+                "(lambda, def undefined beyond n) inputs, the same objects asked again and after the caller extended them, whole "
+                "classes up to length 7/8, judged by Trace_C17: sound up to n, complete up to m, irredundant, same "
                 "output for all representations; non-trivial = a run that learned at least one pattern; plus the private "
-                "containment test, sufficiency checks, clean-up bases, maximal shadings and auto_bisc descriptions")
+                "containment test, sufficiency checks with the permutations they hand back, clean-up bases for several argument "
+                "forms, to_sg_format round trip, helpers leave the output object unchanged, maximal shadings and auto_bisc descriptions")
 
 
 def replay(ctx, path):
@@ -227,7 +523,7 @@ def replay(ctx, path):
     ev = case.get("event")
     if not ev or ev["op"] != "Bisc":
         raise tlc.MachineryFailure("only Bisc events can be replayed individually")
-    A = [tuple(a) for a in ev["A"]]
+    A = [tuple(a) for a in ev.get("meta", {}).get("dup", ev["A"])]      # (the list as it was given, repetitions included)
     SG = quiet(bisc, [Perm(a) for a in A], ev["m"], ev["n"])
     e2 = {"op": "Bisc", "A": ev["A"], "m": ev["m"], "n": ev["n"], "SG": sg_json(SG)}
     v = util.validate_trace(ctx, "Trace_C17", [e2])
